@@ -886,7 +886,8 @@ class NestedExtensionArray(ExtensionArray):
         """
         for chunk in self._chunked_array.iterchunks():
             struct_array: pa.StructArray = cast(pa.StructArray, chunk)
-            list_array: pa.ListArray = cast(pa.ListArray, struct_array.field(field))
+            # with the validity of the struct: a missing row is a null list whatever its children hold
+            list_array: pa.ListArray = cast(pa.ListArray, pa.compute.struct_field(struct_array, field))
             for list_scalar in list_array:
                 yield np.asarray(list_scalar.values)
 
